@@ -452,8 +452,10 @@ extern "C" {
 
 void __real_coap_ticks(coap_tick_t *t);
 void __wrap_coap_ticks(coap_tick_t *t) {
-  if (W) *t = (coap_tick_t)W->now;
-  else __real_coap_ticks(t);
+  if (W) {
+    if (W->creep_every && ++W->clock_reads % W->creep_every == 0) W->now++;
+    *t = (coap_tick_t)W->now;
+  } else __real_coap_ticks(t);
 }
 
 // select(): libcoap waits a few milliseconds for the peer's WebSocket Close inside coap_ws_close().  For virtual sockets the answer is
